@@ -225,6 +225,9 @@ class EnumerateView:
     def vc_iter(self, eng):
         raise Unsupported('iteration over enumerate(symbolic sequence) needs a loop invariant')
 
+    def vc_getitem(self, eng, idx, node=None):
+        return self.at(eng, zterm(idx, INT))
+
 
 def _zip(eng, args, kwargs, node):
     lists = [eng.iterate_concrete(a) for a in args]
